@@ -249,6 +249,22 @@ def host_models():
 
     H["opt_of"] = H["res_of"] = opt_res_of
 
+    def unit_param(path, name, args):
+        # after_unit((), x) -> x ; around_unit(x, (), y) -> x - y : a `()` argument occupies no machine argument
+        # the Rust `extern "C"` trampoline takes its arguments by position and ignores surplus ones
+        want = 1 if name == "after_unit" else 2
+        vals = list(args[2:2 + want])
+        if len(vals) != want:
+            raise Unsupported(f"{name}: {len(vals)} machine arguments after the out-pointer, the Rust function takes {want}")
+        vals = [v if not isinstance(v, Ptr) else z3.BitVec(f"address_as_u32_{len(path.events)}", 32) for v in vals]
+        vals = [z3.Extract(31, 0, v) if z3.is_bv(v) and v.size() > 32 else v for v in vals]
+        path.events.append(Event("host", name, vals))
+        v = vals[0] if name == "after_unit" else vals[0] - vals[1]
+        path.store(args[1], v, 4)
+        return None
+
+    H["after_unit"] = H["around_unit"] = unit_param
+
     def mk(path, name, args):
         path.events.append(Event("host", "mk", [args[2]]))
         i = path.ledger.fresh()
